@@ -45,6 +45,13 @@ def exec_BW(t):
         sp = (nx + len(a) + a[0] + (b[0] if b else 0)) % 3       # content-determined spelling of the same operation
         if op == 'inv':
             z = np.invert(x) if sp == 0 else ~x
+        elif kind == 'gg':
+            # a column of x against a row of y (both fixed-point arrays): the grid of all pairs, by broadcasting
+            y = mk13(b, sy, ny, fy)
+            X, Y = x[:, None], y[None, :]
+            z = NPOPS[op](X, Y) if sp == 0 else OPS[op](X, Y)
+            if np.shape(z.val) != (len(a), len(b)):
+                return ['SHAPE:%s' % (np.shape(z.val),)]
         elif kind == 'ff':
             y = mk13(b, sy, ny, fy)
             z = NPOPS[op](x, y) if sp == 0 else OPS[op](x, y)
@@ -118,6 +125,10 @@ def generate(tier, rng):
                     for cb in range(loy, hiy + 1):
                         if n <= 3 or rng.random() < 0.3:
                             yield 'BW %s ff %s %s %s %s %s' % (rng.choice(['and', 'or', 'xor']), fm(sx, n, f), fm(sy, n, rng.randint(0, n)), rng.choice(OVFS), L(allx), L([cb]))
+                        if len(allx) >= 2:
+                            yb_ = [rng.randint(loy, hiy) for _ in range(len(allx))]       # as many elements, another shape
+                            yield 'BW %s gg %s %s %s %s %s' % (rng.choice(['and', 'or', 'xor']), fm(sx, n, f), fm(sy, n, rng.randint(0, n)), rng.choice(OVFS), L(allx), L(yb_))
+                            yield 'BW %s gg %s %s %s %s %s' % (rng.choice(['and', 'or', 'xor']), fm(sx, n, f), fm(sy, n, rng.randint(0, n)), rng.choice(OVFS), L(allx[:3]), L(yb_[:2]))
                         # both operands arrays (element by element), and an array of masks (D67: only the first operand was iterated)
                         if True:
                             yb = [rng.randint(loy, hiy) for _ in allx]
@@ -154,6 +165,8 @@ def generate(tier, rng):
             xs = [ca] if rng.random() < 0.6 else [ca, pick(lox, hix), pick(lox, hix)]      # scalar or array x, scalar y
             yield 'BW %s ff %s %s %s %s %s' % (rng.choice(['and', 'or', 'xor']), fm(sx, n, f), fm(sy, n, rng.randint(0, n)), o, L(xs), L([cb]))
             ys = [rng.choice([loy, hiy, 0, 1, rng.randint(loy, hiy)]) for _ in xs]
+            if len(xs) >= 2:
+                yield 'BW %s gg %s %s %s %s %s' % (rng.choice(['and', 'or', 'xor']), fm(sx, n, f), fm(sy, n, rng.randint(0, n)), o, L(xs), L(ys))
             yield 'BW %s ff %s %s %s %s %s' % (rng.choice(['and', 'or', 'xor']), fm(sx, n, f), fm(sy, n, rng.randint(0, n)), o, L(xs), L(ys))
             yield 'BW %s %s %s %s %s %s %s' % (rng.choice(['and', 'or', 'xor']), rng.choice(['fm', 'mf']), fm(sx, n, f), fm(sx, n, f), o, L(xs),
                                                L([rng.choice([0, -1, (1 << n) - 1, 1 << 63, rng.getrandbits(n)]) for _ in xs]))
